@@ -36,6 +36,16 @@ ASSUMPTIONS = [
 ]
 TOL = C11.TOL
 
+
+def _ties():
+    from harness.translate import sampling_tr
+    return [{"name": "scores._sampling_method", "translate": sampling_tr.translate_sampling_method,
+             "gen_file": "Gen_sampling_method.v", "tie_file": "Tie_sampling_method.v"}]
+
+
+TIES = _ties()
+
+
 INT_NAMES = [3, 7, 10, 12]
 STR_NAMES = ["a", "g10", "g2", "zz"]           # lexicographic order differs from "numeric" order
 
